@@ -1,6 +1,8 @@
 (** C02 — Vector operators and reductions act element-wise on every vector type.
     Statements are in VekProofs.C02_spec; programs are regenerated from /repo by symx. *)
 From VekLib Require Import Ops RingOps LinAlg.
+From VekModel Require Import BoolReduce.
+Require Import List.
 From VekProofs Require Import C02_spec C02_pa C02_pb C02_pc C02_pd C02_pe C02_pf C02_pg C02_ph.
 
 Theorem C02_construct : forall C : cring, C02_construct_stmt C.           Proof. exact C02_pa.C02_construct. Qed.
@@ -14,6 +16,12 @@ Theorem C02_reduce_partial : forall C : cring, C02_reduce_partial_stmt C. Proof.
 Theorem C02_cmp_small : forall C : cring, C02_cmp_small_stmt C.           Proof. exact C02_pg.C02_cmp_small. Qed.
 Theorem C02_cmp_wide : forall C : cring, C02_cmp_wide_stmt C.             Proof. exact C02_ph.C02_cmp_wide. Qed.
 
+(** hand-written model of the concrete-type reductions (tied to the code by the correspondence run) *)
+Theorem C02_bool_reduce_and : forall l, reduce_and l = true <-> (forall b, In b l -> b = true). Proof. exact reduce_and_spec. Qed.
+Theorem C02_bool_reduce_or : forall l, reduce_or l = true <-> (exists b, In b l /\ b = true).  Proof. exact reduce_or_spec. Qed.
+
+Print Assumptions C02_bool_reduce_and.
+Print Assumptions C02_bool_reduce_or.
 Print Assumptions C02_construct.
 Print Assumptions C02_arith.
 Print Assumptions C02_bits.
